@@ -20,7 +20,7 @@ PER_WORLD = {'NecessityDesignated', 'NecessityNegatedUndesignated', 'Possibility
              'Necessity', 'PossibilityNegated'}
 
 
-def clause_key(logic, c, shape, over=True):
+def clause_key(logic, c, shape, over=True, ob=None):
     "Stable key of an unsaturation: the shared call site where one exists, else (logic, clause, shape)."
     if c == 3 and shape in PER_WORLD:
         return 'unsaturated:missing-instance:kfde.NecessityDesignated(NodeCount.isleast/MaxWorlds)'
@@ -30,6 +30,11 @@ def clause_key(logic, c, shape, over=True):
             return f'unsaturated:{logic}:frame-rule-unapplied-within-world-projection'
         return 'unsaturated:frame-rule-unapplied:rules.AccessNodeRule(MaxWorlds silent stop)'
     if c == 6:
+        ls = (ob or {}).get('last_step') or {}
+        if ob is not None and not (ls.get('rule') == 'Serial' and ls.get('same_branch')):
+            # the known defect (no two Serial steps in a row on a branch) only bites when the tableau's very last
+            # step was a Serial step on this same branch
+            return f'unsaturated:{logic}:serial-successor-missing:not-after-own-serial-step'
         return 'unsaturated:serial-successor-missing:rules.access.Serial(_should_apply)'
     if c == 7:
         return 'unsaturated:identity-symmetry:cpl.IdentityIndiscernability(never yields b = a from a = b)'
@@ -108,6 +113,10 @@ def gen_jobs(logics, examples, tier, seed):
         for _ in range(n_rand):
             prems, concl = c01.rand_arg(rng, L['modal'], L['quantified'])
             jobs.append(dict(logic=n, premises=prems, conclusion=concl, kind='random', models=True))
+        if L['modal'] and L['quantified']:
+            # quantified sentences under modal operators: instances must be evaluated at the world of the node
+            for a in ('e:MSxFx', 'e:MMSxFx', 'e:MVxCFxGx:MFm', 'e:LSxFx:MNFm', 'SxLFx:MSxFx', 'e:MKSxFxNFm'):
+                jobs.append(dict(logic=n, argstr=a, kind='modal-quantified', models=True))
         if 'SelfIdentityClosure' in L['closure']:
             # identity: symmetry, single-occurrence substitution, transitivity through a mirror image
             for a in ('Imn:Inm', 'Fmn:Fmm:Imn', 'Imo:Inm:Ino', 'Fnm:Fmn:Imn'):
@@ -199,7 +208,7 @@ def run(args) -> int:
             coq_bad = bool(failing) or not cm
             lib_bad = bool(lib_fail) or ob.get('lib_countermodel') is not True
             over = ob.get('max_worlds') is not None and ob.get('n_worlds', 0) > ob['max_worlds']
-            keys = sorted({clause_key(n, c, ('frame' if c in (4, 6, 7, 8) else ob['shapes'][k]), over) for k, c in unsat_all})
+            keys = sorted({clause_key(n, c, ('frame' if c in (4, 6, 7, 8) else ob['shapes'][k]), over, ob) for k, c in unsat_all})
             if ob.get('model') is None:
                 # ModelValueError while reading this tableau's open branches
                 rep.update(model_error=r.get('model_error'), tb=r.get('model_tb'))
